@@ -63,6 +63,7 @@ def run(ctx, rep):
     check_revert(fx, rep)
     check_storage_disposition(fx, rep, f)
     check_revert_slot_writers(fx, rep)
+    check_revert_slot_values(fx, rep)
     check_revert_latest(fx, rep)
     check_plain_reverts(fx, rep)
     check_add_transitions(fx, rep)
@@ -312,6 +313,141 @@ def check_revert_slot_writers(fx, rep):
             else:
                 rep.violation('R8-revert-slot-writers', '%s:%s' % (who, short), '%s writes a revert slot map with `%s`, which overrides a value recorded before; only Entry::or_insert may add entries to an existing revert' % (who, short), g.where(bi))
     rep.floor('R8-writers', n, 3)
+
+
+PASS_THROUGH = {'iter', 'iter_mut', 'into_iter', 'drain', 'take', 'filter', 'map', 'collect', 'clone', 'by_ref',
+                'deref', 'deref_mut', 'as_ref', 'as_mut', 'borrow', 'borrow_mut', 'to_owned', 'from_iter',
+                'replace', 'get', 'get_mut', 'unwrap', 'into_mut', 'peekable', 'rev', 'chain', 'cloned', 'copied',
+                'next', 'flatten', 'values', 'values_mut', 'entry', 'or_default'}
+
+
+def slot_sources(fx, fn, origins, depth=8, seen=None):
+    """Which storage map the StorageSlot values reaching `origins` (inside fn) come from:
+    'bundle' (a BundleAccount's own storage), 'transition' (a TransitionAccount's storage) or '?'."""
+    from cfg import Origins
+    seen = set() if seen is None else seen
+    out = set()
+    if depth == 0:
+        return {'?'}
+    og = Origins(fn, fx)
+    for o in origins:
+        k = (fn.nq, o.key())
+        if k in seen:
+            continue
+        seen.add(k)
+        r = o.root
+        if r[0] == 'param':
+            ty = fn.local_ty(r[1]) or ''
+            if fn.kind == 'Closure' and r[1] == 1:
+                # a captured variable: the enclosing function's local of that name
+                parent = fx.fns.get(fn.parent)
+                name = o.path[0][1:] if o.path else None
+                hit = False
+                if parent is not None and name:
+                    pog = Origins(parent, fx)
+                    for i in parent.local_by_name(name):
+                        out |= slot_sources(fx, parent, [x.ext(o.path[1:]) for x in pog.of_local(i, 12)], depth - 1, seen)
+                        hit = True
+                if not hit:
+                    out.add('?')
+            elif 'BundleAccount' in ty:
+                out.add('bundle' if o.path[:1] == ('.storage',) else '?')
+            elif 'TransitionAccount' in ty:
+                out.add('transition' if o.path[:1] == ('.storage',) else '?')
+            elif 'BundleState' in ty and 'StorageSlot' not in ty:
+                out.add('bundle' if o.path[:1] == ('.state',) else '?')
+            elif 'StorageSlot' in ty:
+                # a storage map (or an element of one) handed in: ask every caller
+                sites = 0
+                if fn.kind == 'Closure':
+                    # the closure is used somewhere in the enclosing item (the item itself or a sibling closure)
+                    hosts = [h for h in [fx.fns.get(fn.parent)] + list(fx.closures_of(fn.parent)) if h is not None and h is not fn]
+                    for parent in hosts:
+                        pog = Origins(parent, fx)
+                        for bi, t in parent.calls():
+                            short = (t.callee or '').split('::')[-1]
+                            if short in ('call', 'call_mut', 'call_once') and len(t.args) == 2:
+                                if not any(x.root[0] == 'agg' and x.root[1] == fn.nq for x in pog.of_operand(t.args[0])):
+                                    continue
+                                for x in pog.of_operand(t.args[1]):
+                                    if x.root[0] == 'agg' and len(x.root[4]) >= r[1] - 1:
+                                        sites += 1
+                                        out |= slot_sources(fx, parent, list(x.root[4][r[1] - 2]), depth - 1, seen)
+                            elif short in PASS_THROUGH and len(t.args) >= 2:
+                                # handed to an iterator adaptor: the elements are those of the receiver
+                                if any(x.root[0] == 'agg' and x.root[1] == fn.nq for a in t.args[1:] for x in pog.of_operand(a)):
+                                    sites += 1
+                                    out |= slot_sources(fx, parent, pog.of_operand(t.args[0]), depth - 1, seen)
+                else:
+                    for caller in fx.callers_of(fn.nq):
+                        if '::test' in caller.nq:
+                            continue
+                        cog = Origins(caller, fx)
+                        for bi, t in caller.calls():
+                            if (t.target_fn or t.callee or '') == fn.nq or (t.callee or '') == fn.nq:
+                                if len(t.args) >= r[1]:
+                                    sites += 1
+                                    out |= slot_sources(fx, caller, cog.of_operand(t.args[r[1] - 1]), depth - 1, seen)
+                if sites == 0:
+                    out.add('?')
+            else:
+                out.add('?')
+        elif r[0] == 'call':
+            short = r[1].split('::')[-1]
+            t = fn.blocks[r[2]].term
+            if short in PASS_THROUGH and t.args:
+                out |= slot_sources(fx, fn, og.of_operand(t.args[0]), depth - 1, seen)
+            elif short in ('default', 'new') and not t.args:
+                pass                    # an empty map contributes no slots
+            else:
+                out.add('?')
+        elif r[0] == 'agg' and r[4]:
+            for fld_o in r[4]:
+                out |= slot_sources(fx, fn, list(fld_o), depth - 1, seen)
+        else:
+            out.add('?')
+    return out
+
+
+def check_revert_slot_values(fx, rep):
+    """R12: which field of a StorageSlot a revert entry is built from.  A slot of the bundle account's
+    own map holds in present_value the value before the group being merged; a slot of the transition
+    holds it in previous_or_original_value.  RevertToSlot::Some(..) built from a StorageSlot must take
+    the field that belongs to the map the slot came from."""
+    from cfg import Origins
+    n = 0
+    for g in fx.fns_all:
+        if not g.nq.startswith('revm::db::states') or '::test' in g.nq:
+            continue
+        og = None
+        for b in g.blocks:
+            if b.cleanup:
+                continue
+            for si, s in enumerate(b.stmts):
+                if s.kind != 'assign' or s.rv is None:
+                    continue
+                txt = s.render() if callable(getattr(s, 'render', None)) else str(s)
+                if 'RevertToSlot::Some' not in txt or not s.rv.ops:
+                    continue
+                og = og or Origins(g, fx)
+                for o in og.of_operand(s.rv.ops[0]):
+                    fields = [p for p in o.path if p in ('.present_value', '.previous_or_original_value')]
+                    if not fields:
+                        continue            # a plain value (builder input), not taken from a StorageSlot
+                    n += 1
+                    who = g.nq.replace('revm::db::states::', '')
+                    base = type(o)(o.root, o.path[:o.path.index(fields[0])])
+                    src = slot_sources(fx, g, [base])
+                    want = {'bundle': '.present_value', 'transition': '.previous_or_original_value'}
+                    if src == {'bundle'} or src == {'transition'}:
+                        kind = next(iter(src))
+                        if fields[0] == want[kind]:
+                            rep.ok('R12-revert-slot-values', who, '%s slot -> %s' % (kind, fields[0][1:]))
+                        else:
+                            rep.violation('R12-revert-slot-values', who, '%s builds a revert entry from %s of a slot of the %s storage; the value before the merged group is its %s' % (who, fields[0][1:], 'bundle account\'s own' if kind == 'bundle' else 'transition\'s', want[kind][1:]), g.where(b.i))
+                    else:
+                        rep.undecided('R12-revert-slot-values', who, 'cannot attribute the StorageSlot to the bundle account or the transition (%s)' % sorted(src), g.where(b.i))
+    rep.floor('R12-sites', n, 5)
 
 
 def eval_pair(fx, f, old, new):
